@@ -45,8 +45,18 @@ fn admissible(cmd: &Command) -> bool {
     }
 }
 
+/// the Lua texts of `Redis.scriptCatalog` (lean/RedisVerif/Model/Script7.lean), same ids
+pub const SCRIPTS: [&str; 4] = [
+    "local v = redis.call('GET', KEYS[1]) redis.call('SET', KEYS[1], ARGV[1]) return v",
+    "local v = redis.call('RPOP', KEYS[1]) if v then redis.call('LPUSH', KEYS[2], v) end return v",
+    "redis.call('INCR', KEYS[1]) return redis.call('INCR', KEYS[1])",
+    "local o = redis.call('HGET', KEYS[1], ARGV[1]) redis.call('HSET', KEYS[1], ARGV[1], ARGV[2]) return o",
+];
+
 #[derive(Clone)]
 pub enum Step {
+    /// EVAL of script `id` (1-based) of `SCRIPTS`: (now, id, KEYS, ARGV)
+    Script(u64, usize, Vec<String>, Vec<Vec<u8>>),
     Cmd(u64, Command),
     Evict(u64),
     Dump(u64),
@@ -137,6 +147,23 @@ async fn dump7(st: &State, universe: &[String]) -> String {
 fn step_line(s: &Step, reply: &RespValue) -> Option<String> {
     match s {
         Step::Cmd(now, c) => enc_cmd(c, reply).map(|o| format!("M7 {} {}", now, o)),
+        Step::Script(now, id, keys, args) => {
+            // script 4: ARGV[1] is a hash field (a key code for the model), ARGV[2] its value
+            let (vals, fields): (Vec<&Vec<u8>>, Vec<&Vec<u8>>) = if *id == 4 { (vec![&args[1]], vec![&args[0]]) } else { (args.iter().collect(), vec![]) };
+            let mut l = format!("M7S {} {} {}", now, id, keys.len());
+            for k in keys {
+                l.push_str(&format!(" {}", hex(k.as_bytes())));
+            }
+            l.push_str(&format!(" {}", vals.len()));
+            for v in vals {
+                l.push_str(&format!(" {}", hex(v)));
+            }
+            l.push_str(&format!(" {}", fields.len()));
+            for f in fields {
+                l.push_str(&format!(" {}", hex(f)));
+            }
+            Some(l)
+        }
         Step::Evict(now) => Some(format!("M7EVICT {}", now)),
         Step::Dump(now) => Some(format!("M7DUMP {}", now)),
     }
@@ -151,6 +178,12 @@ async fn run_on(n: usize, steps: &[Step], universe: &[String]) -> Vec<String> {
                 set_now(&sim, *now);
                 let r = st.execute(c).await;
                 out.push(reply_text(&r, reply_order(c)));
+            }
+            Step::Script(now, id, keys, args) => {
+                set_now(&sim, *now);
+                let c = Command::Eval { script: SCRIPTS[*id - 1].to_string(), keys: keys.clone(), args: args.iter().map(|a| SDS::new(a.clone())).collect() };
+                let r = st.execute(&c).await;
+                out.push(reply_text(&r, crate::redisx::Order::AsIs));
             }
             Step::Evict(now) => {
                 set_now(&sim, *now);
@@ -216,6 +249,24 @@ pub fn random_steps(ctx: &Ctx, rng: &mut Rng, n: usize) -> Vec<Step> {
         }
         if rng.chance(1, 20) {
             steps.push(Step::Dump(now));
+            continue;
+        }
+        if rng.chance(1, 9) {
+            // a multi-call script; its keys on one shard (script 2: KEYS[2] = a key with KEYS[1]'s home)
+            let id = rng.range(1, 4) as usize;
+            let k1 = rng.pick(&KEYS).to_string();
+            let keys = if id == 2 {
+                let same: Vec<&str> = KEYS.iter().filter(|k| ctx.gen(k.as_bytes(), n) == ctx.gen(k1.as_bytes(), n)).cloned().collect();
+                vec![k1.clone(), rng.pick(&same).to_string()]
+            } else {
+                vec![k1]
+            };
+            let args: Vec<Vec<u8>> = match id {
+                1 => vec![crate::redisx::payload(rng).as_bytes().to_vec()],
+                4 => vec![rng.pick(&["a", "b", "é"]).as_bytes().to_vec(), crate::redisx::payload(rng).as_bytes().to_vec()],
+                _ => vec![],
+            };
+            steps.push(Step::Script(now, id, keys, args));
             continue;
         }
         let c = gen_cmd(rng, now);
@@ -294,6 +345,32 @@ pub fn corpus() -> Vec<(&'static str, Vec<Step>)> {
             Step::Cmd(t + 1003, Command::FlushAll),
             Step::Cmd(t + 1003, Command::DbSize),
             Step::Dump(t + 1004),
+        ],
+    ));
+    // multi-call scripts: on the right type, on the wrong type (the failing call aborts the script,
+    // what earlier calls did stays done), on an expired key, on a key emptied by the script itself
+    all.push((
+        "scripts",
+        vec![
+            Step::Script(t, 1, vec![k(0)], vec![b"new".to_vec()]),
+            Step::Script(t, 1, vec![k(0)], vec![b"newer".to_vec()]),
+            Step::Cmd(t, Command::RPush(k(1), vec![s("x"), s("y")])),
+            Step::Script(t, 2, vec![k(1), k(1)], vec![]),
+            Step::Script(t, 1, vec![k(1)], vec![b"v".to_vec()]),
+            Step::Script(t, 3, vec![k(1)], vec![]),
+            Step::Script(t, 3, vec![k(2)], vec![]),
+            Step::Script(t, 3, vec![k(2)], vec![]),
+            Step::Script(t, 4, vec![k(3)], vec![b"f".to_vec(), b"1".to_vec()]),
+            Step::Script(t, 4, vec![k(3)], vec![b"g".to_vec(), b"2".to_vec()]),
+            Step::Script(t, 4, vec![k(2)], vec![b"g".to_vec(), b"2".to_vec()]),
+            Step::Cmd(t, Command::PExpire { key: k(3), milliseconds: 50, nx: false, xx: false, gt: false, lt: false }),
+            Step::Script(t + 49, 4, vec![k(3)], vec![b"h".to_vec(), b"3".to_vec()]),
+            Step::Script(t + 50, 4, vec![k(3)], vec![b"h".to_vec(), b"3".to_vec()]),
+            Step::Dump(t + 60),
+            Step::Script(t + 60, 2, vec![k(1), k(1)], vec![]),
+            Step::Script(t + 60, 2, vec![k(1), k(1)], vec![]),
+            Step::Script(t + 60, 2, vec![k(1), k(1)], vec![]),
+            Step::Dump(t + 61),
         ],
     ));
     all
@@ -413,6 +490,7 @@ pub async fn run_steps(out: &mut Out, pend: &mut Vec<Pending>, ctx: &Ctx, n: usi
         for (st, r) in steps.iter().zip(ans.iter()) {
             match st {
                 Step::Cmd(_, c) => out.count(&format!("op:M7:{}", c.name())),
+                Step::Script(_, id, _, _) => out.count(&format!("op:M7:SCRIPT{}", id)),
                 Step::Evict(_) => out.count("op:M7:EVICT"),
                 Step::Dump(_) => out.count("op:M7:DUMP"),
             }
@@ -431,6 +509,7 @@ pub async fn run_steps(out: &mut Out, pend: &mut Vec<Pending>, ctx: &Ctx, n: usi
     if let Some(i) = (0..steps.len()).find(|&i| a1[i] != an[i]) {
         let at = match &steps[i] {
             Step::Cmd(_, c) => c.name().to_string(),
+            Step::Script(_, id, _, _) => format!("SCRIPT{}", id),
             Step::Evict(_) => "EVICT".into(),
             Step::Dump(_) => "DUMP".into(),
         };
